@@ -411,6 +411,8 @@ package main
 //@   ensures unchanged-when-no-name-matches {C14}: implies(sel && !named, result == v)
 //@   ensures redacted-when-a-name-matches {C14}: implies(sel && named && isStr(v) && !polExempt(pk), result == VStr(P) || (enc && result == VStr(CT)))
 //@   ensures search-stage-ignores-selection {C14}: implies(isSearchStage && isStr(v) && !polExempt(pk), result == VStr(P) || (enc && result == VStr(CT)))
+//@   local c := mkCfg(redactedString, redactNumbers, redactBooleans, shouldEncrypt && encryptionKey != nil, mkbytes(elems(encryptionKey), off(encryptionKey), len(encryptionKey)), redactedFieldsRegexp, emailRegex, redactNamespaces)
+//@   ensures leaf-relation {C01,C03,C05,C02}: LeafOK(c, isSearchStage, pk, gpk, v, result)
 
 //@ func parseValue
 //@   safety C07
@@ -431,28 +433,41 @@ package main
 
 //@ func redactArrayValuesWithKey
 //@   safety C07
+//@   props C01 C03
 //@   assigns Arr:Str, Arr:Val, GoMaps
 //@   allocs Arr:Int, Mem:OMap
+//@   local c := mkCfg(redactedString, redactNumbers, redactBooleans, shouldEncrypt && encryptionKey != nil, mkbytes(elems(encryptionKey), off(encryptionKey), len(encryptionKey)), redactedFieldsRegexp, emailRegex, redactNamespaces)
 //@   ensures same-slice: result == arr
-//@   ensures key-path-frame: unchangedBelowExcept("Arr:Str", base(keyPath))
 //@   loop 1 invariant key-path-frame: unchangedBelowExcept("Arr:Str", base(keyPath))
+//@   loop 1 each element-relation {C01,C03,C05}: ElemRelA(c, redactFieldNames, isSearchStage, parentKey, item, arr[_idx])
+//@   ensures key-path-frame: unchangedBelowExcept("Arr:Str", base(keyPath))
+//@   defines array-relation {C01,C03,C05,C02}: RelA(c, redactFieldNames, isSearchStage, parentKey, arr) := true
 
 //@ func redactArrayValues
 //@   safety C07
+//@   props C01 C03
 //@   assigns Arr:Str, Arr:Val, GoMaps
 //@   allocs Arr:Int, Mem:OMap
+//@   local c := mkCfg(redactedString, redactNumbers, redactBooleans, shouldEncrypt && encryptionKey != nil, mkbytes(elems(encryptionKey), off(encryptionKey), len(encryptionKey)), redactedFieldsRegexp, emailRegex, redactNamespaces)
 //@   ensures same-slice: result == arr
 //@   ensures key-path-frame: unchangedBelowExcept("Arr:Str", base(keyPath))
+//@   defines array-relation {C01,C03,C05,C02}: RelA(c, redactFieldNames, isSearchStage, "", arr) := true
 
 //@ func redactQueryValues
 //@   safety C07
+//@   props C01 C03
 //@   assigns Arr:Str, Arr:Val, GoMaps
 //@   allocs Arr:Int, Mem:OMap
 //@   requires map: obj != nil
+//@   requires parent-operator-is-a-table-value: tableVal(parentCoreOp)
+//@   local c := mkCfg(redactedString, redactNumbers, redactBooleans, shouldEncrypt && encryptionKey != nil, mkbytes(elems(encryptionKey), off(encryptionKey), len(encryptionKey)), redactedFieldsRegexp, emailRegex, redactNamespaces)
 //@   loop 1 invariant frame: unchangedBelow("Mem:OMap") && newObj > old(heapTop) && newObj <= heapTop && !isTable(newObj) && (el == nil || elMap(el) == obj)
+//@   loop 1 invariant key-path-frame: unchangedBelowExcept("Arr:Str", base(keyPath))
+//@   loop 1 invariant position: el == nil || (0 <= elPos(el) && elPos(el) < omLen(om(obj)))
+//@   loop 1 invariant relation {C01,C03,C05}: QAcc(c, redactFieldNames, isSearchStage, old(om(obj)), ite(el == nil, omLen(old(om(obj))), elPos(el)), om(newObj))
 //@   ensures fresh-map: result > old(heapTop) && result <= heapTop && !isTable(result)
 //@   ensures key-path-frame: unchangedBelowExcept("Arr:Str", base(keyPath))
-//@   loop 1 invariant key-path-frame: unchangedBelowExcept("Arr:Str", base(keyPath))
+//@   defines level-relation {C01,C03,C05,C02}: RelQ(c, redactFieldNames, isSearchStage, obj, result) := QRel(c, redactFieldNames, isSearchStage, old(om(obj)), om(result))
 
 //@ func augmentOp
 //@   safety C07
